@@ -109,7 +109,7 @@ func (plugin *StrategyBasedQueuePlugin) OnRequest(
 	request := queue.NewRequest(onRequest.ID, priority, plugin.clock)
 	canProceed, err := relevantQueue.Enqueue(
 		request,
-		time.Duration(remedyConfig.TTLSeconds)*time.Second,
+		time.Duration(float64(remedyConfig.TTLSeconds)*float64(time.Second)),
 		remedyConfig.QueueSize,
 	)
 	if err != nil {
